@@ -4,7 +4,7 @@
  * threads, and prints the resulting layout (inodes, fragment table, disk) as one JSON line.
  *
  * unit = 1024 bytes, block = 4 units.  Atom (c, n), c != 'z':  byte0 = 0x80|n, rest = c.  'z' = zero bytes.
- * input file:   Q <backlog> W <workers> CS <c>=<units> ...
+ * input file:   Q <backlog> W <workers> CS <c>=<units> ...      (<units> = -1: compressing a block that contains <c> fails)
  *               FILE <flags> <c> <n> <c> <n> ...            (one line per file, in order) */
 #include <stdio.h>
 #include <stdlib.h>
@@ -62,6 +62,7 @@ static sqfs_s32 sc_block(sqfs_compressor_t *base, const sqfs_u8 *in, sqfs_u32 si
 			else {
 				int n = in[pos] & 0x7f, ch = in[pos + 1];
 				if (!(in[pos] & 0x80) || n < 1 || n > 4 || pos + (sqfs_u32)n * U > size) return SQFS_ERROR_COMPRESSOR;
+				if (cs[ch] < 0) return SQFS_ERROR_COMPRESSOR;       /* scripted failure (CS <c>=-1): e.g. the codec ran out of memory */
 				hdr[nh++] = (unsigned char)n; hdr[nh++] = (unsigned char)ch;
 				units += cs[ch] < n ? cs[ch] : n; pos += n * U; natoms++;
 			}
